@@ -15,6 +15,7 @@ import (
 	"time"
 
 	"github.com/saucelabs/forwarder"
+	"github.com/saucelabs/forwarder/httplog"
 	"github.com/saucelabs/forwarder/verifharness/lib"
 	"github.com/saucelabs/forwarder/verifharness/wiring"
 )
@@ -284,6 +285,11 @@ func buildRoutes(ca *lib.CA) []*route {
 		withLimits := func(c *forwarder.HTTPProxyConfig) {
 			c.ReadHeaderTimeout = 400 * time.Millisecond
 			c.IdleTimeout = 800 * time.Millisecond
+			if len(name)%2 == 0 {
+				// half of the routes log exchanges in body mode: the logging layer then handles
+				// the bodies of every message, and a 2xx CONNECT has none to handle
+				c.LogHTTPMode = httplog.Body
+			}
 			if cfg != nil {
 				cfg(c)
 			}
@@ -361,7 +367,7 @@ func genScript(r *lib.RNG, key, route string, thorough bool) *script {
 		s.segT = 1500
 	}
 	s.proto = lib.Pick(r, []string{"HTTP/1.1", "HTTP/1.1", "HTTP/1.1", "HTTP/1.0"})
-	s.connOpt = lib.Pick(r, []string{"", "", "Connection: close\r\n", "Connection: keep-alive\r\n", "Proxy-Connection: Keep-Alive\r\n", "Connection: close, x-whatever\r\nX-Whatever: 1\r\n"})
+	s.connOpt = lib.Pick(r, []string{"", "", "Connection: close\r\n", "Connection: keep-alive\r\n", "Proxy-Connection: Keep-Alive\r\n", "Connection: close, x-whatever\r\nX-Whatever: 1\r\n", "Content-Length: 0\r\n", "Content-Length: 13\r\n"})
 	if r.Chance(1, 6) {
 		s.lullC = 1300 * time.Millisecond
 	}
